@@ -95,7 +95,7 @@ theorem swap_leaf_leaf {o : Options} (hno : o.allow_to_string = false) {x y : SV
   | true =>
     obtain ⟨s, hs, e⟩ := WF_leaf_embed hw hl
     rw [e] at hr ⊢
-    rcases absorb_comm_partial .fixed o hno t.name t.path hs hx hy with ⟨q, h1, h2⟩ | ⟨h1, _⟩
+    rcases absorb_comm_leaf .fixed o hno t.name t.path hs hx hy with ⟨q, h1, h2⟩ | ⟨h1, _⟩
     · rw [h1] at hr; cases hr
       refine ⟨r, h2, TEq_refl o r ?_⟩
       rw [absorb2_leaf .fixed o _ _ s hx hy] at h1
